@@ -21,3 +21,9 @@ func (rr *RoundRobin) VerifCounter() uint64 {
 	defer rr.mutex.Unlock()
 	return rr.counter
 }
+
+// VerifLoadCachedPartitions exposes the process-wide partition list cache the
+// Writer offers to its balancer.
+func VerifLoadCachedPartitions(numPartitions int) []int {
+	return loadCachedPartitions(numPartitions)
+}
